@@ -126,6 +126,18 @@ def _update_fn(kind):
         def upd(x, f0, f0_old, grad, X, G, c=[1.0]):
             return f0, f0_old, grad, G
         return upd
+    if kind == "rewrite":
+        # an arbitrary redefinition at the FIRST call (the one made before iterating): gradient and stored gradients
+        # rewritten affinely; later calls hand everything back unchanged
+        from collections import deque
+        n = [0]
+
+        def upd(x, f0, f0_old, grad, X, G):
+            n[0] += 1
+            if n[0] == 1:
+                return f0, f0_old, 1.5 * np.asarray(grad, float) + 0.25, deque(1.5 * np.asarray(g, float) + 0.25 for g in G)
+            return f0, f0_old, grad, G
+        return upd
     raise ValueError(kind)
 
 
